@@ -54,7 +54,11 @@ def main():
         acc = common.Acc()
         ctx = Ctx(spec, scratch)
         if "replay" in spec:
-            mod.replay(common.unjson(spec["replay"]), acc, ctx)
+            case = common.unjson(spec["replay"])
+            if isinstance(case, dict) and case.get("list_sharing"):
+                from vlib import sse
+                sse.restore_list_sharing(case)
+            mod.replay(case, acc, ctx)
         else:
             mod.run_shard(spec, acc, ctx)
         for k, v in instrument.insitu_counts.items():
